@@ -361,6 +361,7 @@ type Shape struct {
 	Neg    bool   `json:"neg,omitempty"`    // !~ of the alternation
 	TF     bool   `json:"tf,omitempty"`     // single tag filter evaluated through the tag-filter cache
 	Agg    bool   `json:"agg,omitempty"`    // aggregated: series are not identifiable in the answer
+	Region bool   `json:"region,omitempty"` // the shape's condition is on the tag region (asked only when the schema knows it)
 }
 
 type Obs struct {
@@ -546,6 +547,33 @@ func (rn *runner) readAll(phase string, prime bool) {
 			{Shape{Name: "show-tag-values", Path: 2}, "show tag values from " + fm + " with key = host", false, "tagvalues"},
 			{Shape{Name: "show-tag-keys", Path: 2}, "show tag keys from " + fm, false, "tagkeys"},
 		}
+		// conditioned listings: the listing of one tag restricted by a condition on (mostly) another tag, every operator;
+		// a dropped series always carries a host value no surviving series of the measurement has, so a leak is visible
+		regX := &Pred{Kind: "eq", Key: "region", Val: "x"}
+		regY := &Pred{Kind: "eq", Key: "region", Val: "y"}
+		regNX := &Pred{Kind: "neq", Key: "region", Val: "x"}
+		regXY := &Pred{Kind: "or", Key: "region", Val: "x", Key2: "region", Val2: "y"}
+		hostNB := &Pred{Kind: "neq", Key: "host", Val: "b"}
+		hostNZ := &Pred{Kind: "neq", Key: "host", Val: "zz"}
+		tv := "show tag values from " + fm + " with key = host where "
+		shapes = append(shapes,
+			shp{Shape{Name: "tv-where-eq", Path: 2, Q: regX, Region: true}, tv + "region = 'x'", false, "tagvalues"},
+			shp{Shape{Name: "tv-where-eq-y", Path: 2, Q: regY, Region: true}, tv + "region = 'y'", false, "tagvalues"},
+			shp{Shape{Name: "tv-where-neq", Path: 2, Q: regNX, Region: true}, tv + "region != 'x'", false, "tagvalues"},
+			shp{Shape{Name: "tv-where-re", Path: 2, Q: regXY, Region: true}, tv + "region =~ /x|y/", false, "tagvalues"},
+			shp{Shape{Name: "tv-where-nre", Path: 2, Q: regNX, Region: true}, tv + "region !~ /x/", false, "tagvalues"},
+			shp{Shape{Name: "tv-where-host-neq", Path: 2, Q: hostNB}, tv + "host != 'b'", false, "tagvalues"},
+			shp{Shape{Name: "tv-keyre-where", Path: 2, Q: regX, Region: true}, "show tag values from " + fm + " with key =~ /ho.*/ where region = 'x'", false, "tagvalues"},
+			shp{Shape{Name: "tv-in-where", Path: 2, Q: hostNZ}, "show tag values from " + fm + " with key in (host, region) where host != 'zz'", false, "tagvalueskv"},
+			shp{Shape{Name: "tk-where-host", Path: 2, Q: eqA}, "show tag keys from " + fm + " where host = 'a'", false, "tagkeys"},
+			shp{Shape{Name: "tk-where-region", Path: 2, Q: regX, Region: true}, "show tag keys from " + fm + " where region = 'x'", false, "tagkeys"},
+			shp{Shape{Name: "ss-where-neq", Path: 1, Q: neqA}, "show series from " + fm + " where host != 'a'", false, "series"},
+			shp{Shape{Name: "ss-where-re", Path: 1, Q: or2}, "show series from " + fm + " where host =~ /a|b/", false, "series"},
+			shp{Shape{Name: "ss-where-nre", Path: 1, Q: or2, Neg: true}, "show series from " + fm + " where host !~ /a|b/", false, "series"},
+			shp{Shape{Name: "ss-where-region", Path: 1, Q: regX, Region: true}, "show series from " + fm + " where region = 'x'", false, "series"},
+			shp{Shape{Name: "card-series-exact", Path: 2, Agg: true}, "show series exact cardinality from " + fm, false, "card"},
+			shp{Shape{Name: "card-tagvalues-exact", Path: 2, Agg: true}, "show tag values exact cardinality from " + fm + " with key = host", false, "tvcard"},
+		)
 		// single tag filters that go through the tag-filter cache: asked before the drop only in "prime" histories
 		if phase != "before" || prime {
 			shapes = append(shapes,
@@ -554,8 +582,8 @@ func (rn *runner) readAll(phase string, prime bool) {
 			)
 		}
 		for _, sh := range shapes {
-			if sh.Name == "tag-absent" && !rn.ref.known[m]["region"] {
-				continue
+			if (sh.Name == "tag-absent" || sh.Region) && !rn.ref.known[m]["region"] {
+				continue // the schema of the measurement does not know the tag: the identifier would not be a tag
 			}
 			o := Obs{Shape: sh.Name, Mst: m}
 			q := sh.Q
@@ -686,6 +714,46 @@ func (rn *runner) readAll(phase string, prime bool) {
 					}
 				}
 				sort.Strings(o.Rows)
+			case "tagvalueskv":
+				seen := map[string]bool{}
+				for _, x := range live {
+					for k, v := range h.Series[x.S].Tags {
+						if !seen[k+"="+v] {
+							seen[k+"="+v] = true
+							o.Want = append(o.Want, k+"="+v)
+						}
+					}
+				}
+				sort.Strings(o.Want)
+				for _, s := range ss {
+					ki, vi := col(s, "key"), col(s, "value")
+					for _, r := range s.Values {
+						k, _ := r[ki].(string)
+						v, _ := r[vi].(string)
+						o.Rows = append(o.Rows, k+"="+v)
+					}
+				}
+				sort.Strings(o.Rows)
+			case "card", "tvcard":
+				seen := map[string]bool{}
+				for _, x := range live {
+					if sh.kind == "card" {
+						seen[h.Series[x.S].id()] = true
+					} else {
+						seen[h.Series[x.S].Tags["host"]] = true
+					}
+				}
+				if len(seen) > 0 {
+					o.Want = []string{strconv.Itoa(len(seen))}
+				}
+				for _, s := range ss {
+					ci := col(s, "count")
+					for _, r := range s.Values {
+						if c, _ := toInt(r[ci]); c != 0 {
+							o.Rows = append(o.Rows, strconv.FormatInt(c, 10))
+						}
+					}
+				}
 			case "tagkeys":
 				seen := map[string]bool{}
 				for _, x := range live {
